@@ -77,8 +77,20 @@ def names(pq):
 def run_walk(spec, res):
     rng = random.Random(spec["seed"])
     m = workload.materialise(spec)
-    variant = rng.choice(["default", "default", "noopt", "nodebump", "dropwater"])
-    base = {"default": [], "noopt": ["--noopt"], "nodebump": ["--nodebump"], "dropwater": ["--drop-water"]}[variant]
+    variant = rng.choice(["default", "default", "noopt", "nodebump", "dropwater", "titr", "titr"])
+    base = {"default": [], "noopt": ["--noopt"], "nodebump": ["--nodebump"], "dropwater": ["--drop-water"],
+            "titr": []}[variant]
+    table = None
+    if variant == "titr":
+        # pKa-driven states through the stubbed pKa source (same table for the whole walk): naming/formatting options
+        # must not change which states are chosen
+        from . import c06
+        c06.install()
+        ph = round(rng.choice([rng.uniform(0, 14), rng.uniform(9.5, 14), rng.uniform(0, 4)]), 2)
+        table, _groups = c06.make_table(m["truth"], rng, ph)
+        for row in table:
+            row["pKa"] = row["model_pKa"] = round(rng.uniform(0.5, 13.5), 2)
+        base = ["--titration-state-method=propka", f"--with-ph={ph}"]
     state = {f: False for f in FLAGS}
     state["ffout"] = None
     prev = None
@@ -94,7 +106,14 @@ def run_walk(spec, res):
         else:
             change = ("start", "", "")
         opts = opts_of(state, spec["ff"], base)
-        r = pipeline.run(m["text"], opts, workname="c09")
+        if table is not None:
+            from . import c06
+            c06.STUB["table"] = table
+        try:
+            r = pipeline.run(m["text"], opts, workname="c09")
+        finally:
+            if table is not None:
+                c06.STUB["table"] = None
         if not r.ok:
             res.count("runs_failed")
             if prev is not None:
